@@ -48,15 +48,17 @@ PY
   VIOL=0
   if [ "$NART" -gt 0 ]; then
     if [ "$T" = serde_json ]; then CFG=serde; else CFG=main; fi
-    VBIN="$VERIF/target/$CFG/release/vcheck"
-    [ -x "$VBIN" ] || { echo "fuzz: $VBIN missing (run ./check --setup)" >&2; exit 2; }
+    VBIN="$("$VERIF/check" --build "$CFG")" || { echo "fuzz: cannot build vcheck ($CFG) to decode the artifacts" >&2; exit 2; }
+    [ -x "$VBIN" ] || { echo "fuzz: $VBIN missing" >&2; exit 2; }
     SEEN=""
     for a in "$WORK/artifacts"/*; do
       case "$a" in *crash*|*j[0-9]_*) ;; *) continue;; esac
       out="$(VERIF_DIR="$VERIF" "$VBIN" fuzz-artifact "$T" "$a" 2>&1)"; rc=$?
       line="$(echo "$out" | grep '^VIOLATION' | head -1)"
       if [ $rc -eq 1 ] && [ -n "$line" ]; then
-        case "$SEEN" in *"$line"*) ;; *) echo "$out" | grep -E '^\s+\[C' >&2; echo "$line"; SEEN="$SEEN|$line"; VIOL=$((VIOL+1));; esac
+        # one VIOLATION line per failure signature
+        sig="$(echo "$out" | grep -E '^\s+\[C' | head -1 | sed -E 's/ ::.*//')"
+        case "$SEEN" in *"|$sig|"*) rm -f "$(echo "$line" | sed 's/.*replay=//')";; *) echo "$out" | grep -E '^\s+\[C' >&2; echo "$line"; SEEN="$SEEN|$sig|"; VIOL=$((VIOL+1));; esac
         FINAL=1
       fi
     done
